@@ -1,15 +1,27 @@
 from . import COMMON_TB, FLOCQ_AXIOMS_NOTE
 
-CONFIG = dict(
-    harness="c02",
-    comparisons=[
+_cmp = [
         dict(name="model", code=200, kind="eq"),
         dict(name="valid_emf_json", code=201, kind="holds", predicate=True),
+    ]
+CONFIG = dict(
+    harness="c02",
+    # the formatter is exercised as built without debug assertions, too (the shipped configuration)
+    suites=[
+        dict(suffix="", profile="debug", comparisons=_cmp),
+        dict(suffix="", profile="release", comparisons=_cmp),
     ],
     trusted_base=COMMON_TB + [FLOCQ_AXIOMS_NOTE],
     assumptions=[
         "float printing (dtoa) is an oracle: each case carries the text the real crate produced; both hypotheses (JSON number, rounds back to the float) are checked on every literal",
         "hash-map iteration order is unspecified: split records and missing-dimension messages are compared as multisets",
     ],
-    explanation="EMF mechanism model (string buffers, comma logic, truncation, maps) vs the real formatter on generated (config, multiplicity, entry) cases.",
+    explanation="Theorems: the bytes written for an accepted entry are exactly the printed documents of the reference interpretation "
+                "(refinement of the buffer mechanism, any formatter state); every printed document is a value of the RFC 8259 grammar "
+                "with the EMF metadata shape, one newline-terminated line each; escaping and number tokens; a validation error writes "
+                "nothing; parse (print j) = j for the executable parser used as predicate. Correspondence, in both build profiles "
+                "(with and without debug assertions): the real formatter against the mechanism model and the validity predicate "
+                "(Coq JSON parser) on generated (configuration, multiplicity, entry) cases incl. every placement of six observation "
+                "classes, nasty strings / names / custom units, call sequences on one formatter, entries without a timestamp "
+                "(wall-clock window).",
 )
